@@ -346,6 +346,19 @@ def run_to_completion(state: State, external_event: Union[dict, Event]) -> State
                             )
                             _push_internal_event(state, colang_error_event)
                             heads_failing.append(head)
+                            if (
+                                flow_state.activated > 0
+                                and not head.catch_pattern_failure_label
+                            ):
+                                # Avoid an activated flow with a faulty match statement from being
+                                # restarted: the new instance would fail again (at once, if the
+                                # statement matches flow events) and end in an infinite loop
+                                log.warning(
+                                    "Did not restart activated flow '%s' that failed while matching"
+                                    " since this could have created an infinite loop!",
+                                    flow_state.flow_id,
+                                )
+                                flow_state.new_instance_started = True
                             continue
 
                         if matching_score > 0.0:
